@@ -241,6 +241,8 @@ def gen_case(rng):
         if rng.random() < 0.2:
             cache[name] = rng.choice((b'emb', [b'a', b'b'], 7, 'text', 1.5,
                                       [b'only'], bytearray(b'mutable'),
+                                      [5, 7.5, 'bob'], [1, b'x', 'y', 2.0],
+                                      (3, 'tuple', 1.25), ['s'], [0],
                                       [bytearray(b'm1'), b'i2'],
                                       (b't1', bytearray(b't2'))))
     for bk in (b'k', b'P', b'sigfield1', b'timestamp'):
